@@ -147,6 +147,8 @@ def run_D2(ctx, case):
                 covered.append(z3.And(z3.ULE(s64, i), z3.ULT(i, e64)))
             else:
                 stackbuf = p; sz = it.mem.objs[p.obj]['size']
+                okb = not p.obj.startswith('@'); q.n += 1; q.unsat += okb; q.sat += (not okb)
+                if not okb: q.failed.append((tag + ': the temporary item buffer is the global %s, shared by all threads that initialise short ranges concurrently' % p.obj, {}))
                 q.prove(pc, z3.And(s64 == start, (e64 - s64) * 64 <= sz - p.off), tag + ': temporary buffer call starts at startItem and fits the buffer')
         for (d, sr, nn) in copies:
             ok = d.obj == 'dataset' and stackbuf is not None and sr.obj == stackbuf.obj and sr.off == stackbuf.off
